@@ -677,3 +677,15 @@ def eq_dispatch_deep(I, a, b):
 from . import models_coll   # noqa: E402,F401  (collections, iterators, io, fmt, hash)
 from . import models_io   # noqa
 from . import models_fmt  # noqa
+from . import models_mdns  # noqa
+
+
+@model(r'^<&(.*) as PartialEq(?:<&(.*)>)?>::(eq|ne)$')
+def m_ref_eq(I, fr, callee, m, args):
+    """impl PartialEq<&B> for &A: compare the referents with A's PartialEq"""
+    a, b = I.load_ref(args[0]), I.load_ref(args[1])
+    inner = '<%s as PartialEq>::eq' % m.group(1)
+    r = I.do_call(fr, inner, [a, b])
+    if m.group(3) == 'ne':
+        return Sc(1 - r.e, 'bool') if r.concrete else sc_from(z3.Not(r.z()), 'bool')
+    return r
